@@ -489,6 +489,15 @@ def checkInverse (pfx : String) (τ eps : Rat) (ax ay : List Rat) (cs : List (Li
       let const := col.all fun p => decide (p = col.headD 0)
       wf ++ check (pfx ++ ".bayes") (closeList τ (projQ w.1 w.2 ax) post)
         ++ check (pfx ++ ".u_bound") (decide (w.2 ≤ uhat + τ))
+        -- the bound SCALED by the conditionals' relative uncertainty ω and the irrelevance Ψ(y) = 1 - max_x P(y|x) + min_x P(y|x):
+        -- u ≤ û · (ω + Ψ - ωΨ)  (theorem C05_u_bound: equality in the model).  Outside the zero band (every a(y) > ε, every
+        -- m_x = min_y P(y|x)/a(y) either 0 or > ε) the weights reduce to ω = 1 when some m_x > 0 (C05_wprop_one) and ω = 0
+        -- when every conditional excludes some outcome (C05_wprop_char: every term sits behind the is_zero guard); seeded variant C05_r5A
+        ++ (let mx := pyx.map fun row => (List.zip row ay).foldl (fun acc pa => minQ acc (pa.1 / pa.2)) 1
+            let plain := ay.all (fun v => decide (eps < v)) && mx.all (fun v => decide (v = 0) || decide (eps < v))
+            let irr := 1 - col.foldl maxQ (col.headD 0) + col.foldl minQ (col.headD 0)
+            let phi := if mx.any (fun v => decide (eps < v)) then 1 else irr
+            if plain then check (pfx ++ ".u_scaled_bound") (decide (w.2 ≤ uhat * phi + τ)) else [])
         ++ (if const then check (pfx ++ ".irrelevant_vacuous") (closeQ τ w.2 1) else [])
 
 /-- C05: inversion obeys Bayes; abduction deduces through the inverted table -/
@@ -901,6 +910,15 @@ def oracleC13 (c : Case) : Option (List String) :=
     if !(x.wf (4 * e) && y.wf (4 * e)) then none else
     -- uncertainties in (0, eps] are excluded: the two families deliberately classify them differently
     let band (v : Rat) : Bool := (decide (0 < v) && decide (v ≤ e)) || (decide (1 - 2 * e ≤ v) && decide (v < 1))
+    -- both operands vacuous by the guard `ulps_eq!(u, 1.0)` (value level: 1 - 2 eps <= u <= 1 + 4 eps), which BOTH families use
+    -- for this arm: each takes the mean of the two base rates, so the base rates of the two results agree although the
+    -- operands sit in the band (seeded variant C13_r5A: cfuse took the mean only at an exactly zero weight sum)
+    let vacG (v : Rat) : Bool := decide (1 - 2 * e ≤ v) && decide (v ≤ 1 + 4 * e)
+    if vacG x.u && vacG y.u && c.cls == "ok" && (band x.u || band y.u) then
+      (match allSome c.out with
+       | none => some ["C13.non_finite"]
+       | some out => some (check "C13.both_vacuous_band_base_rate" (closeQ (τ + 4 * e) (qbAt out 0).a (qbAt out 4).a)))
+    else
     if band x.u || band y.u then none else
     -- equal-weight averaging / weighting of two dogmatic opinions: gamma must be 1/2
     if (kind == 1 || kind == 2) && x.u = 0 && y.u = 0 && xs.getD 8 0 ≠ 1 / 2 then none else
